@@ -11,7 +11,7 @@ from ..model import Model, numel
 from ..seeds import digest
 from ..shrinkspec import spec_candidates
 from ..spec import Gen, LEAF_SHAPES, pick_outputs
-from ..world import EPS, World, default_inputs_backward, gen_sched, run_call
+from ..world import spec_eps, EPS, World, default_inputs_backward, gen_sched, run_call
 
 ID = "C08"
 LEVEL = "exploration"
@@ -246,7 +246,7 @@ def _run(scn, inputs, sched, stats, wide=None):
 
 def execute(scn):
     spec = scn["spec"]
-    eps = EPS[spec["dtype"]]
+    eps = spec_eps(spec)
     model = Model(spec)
     stats, events, viols, sets = {}, [], [], {}
     kind = scn["agg"]["kind"]
